@@ -135,6 +135,8 @@ def gen_cutoff(rng, cell, mode):
         lo, hi = 0.05, 2.0
         if mode == "tiny":
             return max(1, int(rng.uniform(0.03, 0.12) * G))
+        if mode == "low":
+            return max(1, int(rng.uniform(0.15, 0.4) * G))
         return max(1, int(rng.uniform(lo, hi) * G))
     B = approx_box(cell)
     w = min(widths(B))
@@ -145,6 +147,8 @@ def gen_cutoff(rng, cell, mode):
         return max(8, int(half * G) - rng.choice([0, 1, 2]))
     if mode == "above":
         return int(rng.uniform(0.52, 0.95) * min(B[0, 0], B[1, 1], B[2, 2]) * G)
+    if mode == "low":
+        return max(8, int(rng.uniform(0.06, 0.16) * w * G))
     return max(8, int(rng.uniform(0.1, 0.5) * w * G))
 
 
@@ -206,16 +210,18 @@ def build_cases(ctx, scale=1.0):
         for _ in range(int(cnt * scale) or 1):
             kind = rng.choice(["none", "cubic", "ortho", "tric"])
             dist = rng.choice(["uniform", "clustered", "outside", "boundary"])
-            cm = rng.choice(["mid", "half"]) if kind != "none" else "mid"
+            cm = rng.choice(["tiny", "low"])
             cases.append(gen_case(rng, "nl", n, kind, dist, cm))
-            cases.append(gen_case(rng, "nb", n, kind, dist, cm))
+            cases.append(gen_case(rng, "nb", n, kind, dist, rng.choice(["low", "mid", "half"])))
     big = [("ortho", "uniform"), ("none", "clustered")] if quick else \
           [("ortho", "uniform"), ("none", "clustered"), ("cubic", "outside"), ("tric", "uniform"), ("ortho", "boundary")]
     if scale >= 1.0:
         for kind, dist in big:
-            cs = gen_case(rng, "nl", 3000, kind, dist, "mid")
+            cs = gen_case(rng, "nl", 3000, kind, dist, "low")
             if cs["cell"] is None:
                 cs["c"] = int(0.25 * G)
+            else:
+                cs["c"] = min(cs["c"], int(0.3 * G))
             cases.append(cs)
     return cases
 
@@ -410,6 +416,60 @@ def summary(case):
             "query": case.get("query"), "hay": case.get("hay"), "xyz_digest": digest(case["xyz"])}
 
 
+def coq_codes(ctx, coq, sizes):
+    """evaluate nl_code on every case inside coqc (vm_compute), several coqc in parallel; returns
+    ({case index: code}, errors).  Only a list of small integers is parsed."""
+    import os
+    import re
+    import subprocess
+    from common import COQ
+    order = sorted(range(len(coq)), key=lambda k: -sizes[k])
+    shards, cur, load = [], [], 0
+    for k in order:
+        cur.append(k)
+        load += sizes[k] * max(sizes[k], 50)
+        if load > 150000 or len(cur) >= 60:
+            shards.append(cur)
+            cur, load = [], 0
+    if cur:
+        shards.append(cur)
+    procs = []
+    for si, sh in enumerate(shards):
+        lines = ["From Coq Require Import ZArith List Bool.", "Import ListNotations.",
+                 "Require Import MD.Neigh.Model MD.Neigh.Run.", "Open Scope Z_scope.",
+                 "Definition cases : list (nl_case * list (list Z)) := [",
+                 ";\n".join("(%s, %s)" % coq[k] for k in sh), "].",
+                 "Eval vm_compute in (7777, map (fun c => nl_code (fst c) (snd c)) cases)."]
+        path = os.path.join(ctx.tmp, "nlcodes_%d.v" % si)
+        with open(path, "w") as fh:
+            fh.write("\n".join(lines) + "\n")
+        procs.append((sh, path))
+    codes, errors = {}, []
+    running, todo = [], list(procs)
+    while todo or running:
+        while todo and len(running) < 6:
+            sh, path = todo.pop(0)
+            pr = subprocess.Popen(["timeout", "1500", "coqc", "-Q", COQ, "MD", path], cwd=ctx.tmp,
+                                  stdout=subprocess.PIPE, stderr=subprocess.STDOUT, text=True)
+            running.append((pr, sh))
+        pr, sh = running.pop(0)
+        out = pr.communicate()[0]
+        if pr.returncode != 0:
+            errors.append("coqc rc=%s: %s" % (pr.returncode, out[-1500:]))
+            continue
+        m = re.search(r"\(7777,\s*(\[[^\]]*\]|nil)\s*\)", out, re.S)
+        if not m:
+            errors.append("unparsed coqc output: " + out[-1500:])
+            continue
+        vals = [int(x) for x in re.findall(r"-?\d+", m.group(1))]
+        if len(vals) != len(sh):
+            errors.append("wrong number of codes")
+            continue
+        for k, v in zip(sh, vals):
+            codes[k] = v
+    return codes, errors
+
+
 def run_cases(ctx, cases, replaying=False):
     outs = []
     B = 400
@@ -454,21 +514,21 @@ def run_cases(ctx, cases, replaying=False):
             cell, cu, lo, hi, d, xyz = coq_common(c, o)
             inp = "(mkNl %s %s %s %s %s %s)" % (cell, cu, lo, hi, d, xyz)
             if o["err"] is not None or len(o["res"]) != len(c["xyz"]):
-                exp = "[[%s]]" % cnat(10 ** 9)
+                exp = "[[%s]]" % cz(-1)
             else:
-                exp = clist([clist([cnat(j) for j in sorted(set(a)) if j < k]) for k, a in enumerate(o["res"])])
+                exp = clist([clist([cz(j) for j in sorted(set(a)) if j < k]) for k, a in enumerate(o["res"])])
             coq.append((inp, exp))
-        big = [k for k, i in enumerate(nl_idx) if len(cases[i]["xyz"]) > 400]
-        small = [k for k, i in enumerate(nl_idx) if len(cases[i]["xyz"]) <= 400]
-        for variant, acc in (("false", cur_bad), ("true", fix_bad)):
-            for grp, shard in ((small, 40), (big, 1)):
-                if not grp:
-                    continue
-                bad, errs = ctx.coq_mismatches(["MD.Neigh.Model", "MD.Neigh.Run"], ("nl_case", "list (list nat)"),
-                                               "(nl_check %s)" % variant, "(fun k => k)", [coq[k] for k in grp], shard=shard)
-                if errs:
-                    ctx.break_("correspondence:coqc-evaluation(nl)", "\n".join(errs))
-                acc.update(nl_idx[grp[b]] for b in bad)
+        codes, errs = coq_codes(ctx, coq, [len(cases[i]["xyz"]) for i in nl_idx])
+        if errs:
+            ctx.break_("correspondence:coqc-evaluation(nl)", "\n".join(errs))
+        for k, i in enumerate(nl_idx):
+            code = codes.get(k)
+            if code is None:
+                continue
+            if code in (1, 3):
+                cur_bad.add(i)
+            if code in (2, 3):
+                fix_bad.add(i)
     # which variant describes the implementation on ALL voxel-list cases of this run
     variant = None
     if nl_idx:
